@@ -561,7 +561,11 @@ func (i *ICMPv6Options) DecodeFromBytes(data []byte, df gopacket.DecodeFeedback)
 // SerializationBuffer, implementing gopacket.SerializableLayer.
 // See the docs for gopacket.SerializableLayer for more info.
 func (i *ICMPv6Options) SerializeTo(b gopacket.SerializeBuffer, opts gopacket.SerializeOptions) error {
-	for _, opt := range []ICMPv6Option(*i) {
+	// the buffer grows towards the front: write the last option first so that
+	// the options appear on the wire in list order
+	list := []ICMPv6Option(*i)
+	for k := len(list) - 1; k >= 0; k-- {
+		opt := list[k]
 		length := len(opt.Data) + 2
 		buf, err := b.PrependBytes(length)
 		if err != nil {
